@@ -6,6 +6,7 @@ package resources
 import (
 	"errors"
 	"fmt"
+	"sort"
 	"strconv"
 	"strings"
 
@@ -86,17 +87,18 @@ func GetNumGPUFractionDevices(pod *v1.Pod) (int64, error) {
 
 func GetGpuGroups(pod *v1.Pod) []string {
 	var gpuGroups []string
-	gpuGroup, found := pod.Labels[constants.GPUGroup]
-	if !found {
-		return nil
+	if gpuGroup, found := pod.Labels[constants.GPUGroup]; found {
+		gpuGroups = append(gpuGroups, gpuGroup)
 	}
-	gpuGroups = append(gpuGroups, gpuGroup)
+	// multi fraction pods carry one label per group and no primary group label
+	var multiGpuGroups []string
 	for labelKey, labelValue := range pod.Labels {
 		if strings.HasPrefix(labelKey, constants.MultiGpuGroupLabelPrefix) {
-			gpuGroups = append(gpuGroups, labelValue)
+			multiGpuGroups = append(multiGpuGroups, labelValue)
 		}
 	}
-	return gpuGroups
+	sort.Strings(multiGpuGroups)
+	return append(gpuGroups, multiGpuGroups...)
 }
 
 func GetMultiFractionGpuGroupLabel(gpuGroup string) (string, string) {
